@@ -1976,4 +1976,56 @@ theorem isString_body (t : List Byte) (h : isString t = true) : ∃ b, t = 39 ::
     exact ⟨b, by rw [e], hb⟩
   · cases h
 
+/-! ### accept helpers -/
+/-- the longest prefix of `p`-characters is unique -/
+theorem prefix_unique (p : Byte → Bool) (w w' rest rest' : List Byte) (h : w ++ rest = w' ++ rest')
+    (hw : w.all p = true) (hw' : w'.all p = true)
+    (hr : rest = [] ∨ ∃ c t, rest = c :: t ∧ p c = false) (hr' : rest' = [] ∨ ∃ c t, rest' = c :: t ∧ p c = false) :
+    w = w' ∧ rest = rest' := by
+  induction w generalizing w' with
+  | nil =>
+    cases w' with
+    | nil => exact ⟨rfl, by simpa using h⟩
+    | cons a u =>
+      exfalso
+      simp only [List.all_cons, Bool.and_eq_true] at hw'
+      rcases hr with rfl | ⟨c, t, rfl, hc⟩
+      · simp at h
+      · simp at h; rw [h.1] at hc; rw [hw'.1] at hc; cases hc
+  | cons a u ih =>
+    simp only [List.all_cons, Bool.and_eq_true] at hw
+    cases w' with
+    | nil =>
+      exfalso
+      rcases hr' with rfl | ⟨c, t, rfl, hc⟩
+      · simp at h
+      · simp at h; rw [← h.1] at hc; rw [hw.1] at hc; cases hc
+    | cons a' u' =>
+      simp only [List.all_cons, Bool.and_eq_true] at hw'
+      simp only [List.cons_append, List.cons.injEq] at h
+      obtain ⟨e1, e2⟩ := ih u' h.2 hw.2 hw'.2
+      exact ⟨by rw [h.1, e1], e2⟩
+
+
+theorem binaryBody_eq (t b : List Byte) (h : binaryBody t = some b) : t = 34 :: (b ++ [34]) := by
+  unfold binaryBody at h
+  split at h
+  · rename_i r
+    split at h
+    · rename_i br heq
+      simp only [Option.some.injEq] at h; subst h
+      have : r = (34 :: br).reverse := by rw [← heq]; simp
+      rw [this]; simp
+    · cases h
+  · cases h
+
+
+theorem extractInt32_of_scan (l : List Byte) (c : Byte) (t : List Byte) (res : IntResult) (l' r' : List Byte)
+    (hc : isSpace c = false) (hs : scanInt longMin longMax l (c :: t) = (res, l', r'))
+    (h1 : ¬ res.value < intMin) (h2 : ¬ res.value > intMax) :
+    IStream.extractInt32 { left := l, right := c :: t, eof := false, fail := false, bad := false, skipws := true } =
+      (some res.value, { left := l', right := r', eof := r'.isEmpty, fail := res.fail, bad := false, skipws := true }) := by
+  simp [IStream.extractInt32, IStream.sentry, IStream.good, dropSpaces_nonspace _ _ _ hc, hs, h1, h2]
+
+
 end StepModel.P21.Lemmas
